@@ -26,6 +26,7 @@ thread_local! {
     static TRACE_HASH: Cell<u64> = const { Cell::new(0xcbf2_9ce4_8422_2325) };
     static PENDING_SITE: RefCell<[Site; MAX_TASKS]> = const { RefCell::new([0; MAX_TASKS]) };
     static ROLE: RefCell<[u8; MAX_TASKS]> = const { RefCell::new([0; MAX_TASKS]) };
+    static CURRENT_OP: RefCell<[(u8, u32, u32); MAX_TASKS]> = const { RefCell::new([(0, 0, 0); MAX_TASKS]) };
     static LOG: RefCell<Option<Vec<(u32, Site)>>> = const { RefCell::new(None) };
     static BUGGIFY: Cell<u32> = const { Cell::new(0) };
     static FAULT_COUNTS: RefCell<[u64; 16]> = const { RefCell::new([0; 16]) };
@@ -62,6 +63,7 @@ pub fn begin_run(record_log: bool, buggify: u32) {
     STEPS.with(|c| c.set(0));
     TRACE_HASH.with(|c| c.set(0xcbf2_9ce4_8422_2325));
     PENDING_SITE.with(|c| *c.borrow_mut() = [0; MAX_TASKS]);
+    CURRENT_OP.with(|c| *c.borrow_mut() = [(0, 0, 0); MAX_TASKS]);
     ROLE.with(|c| {
         let mut r = c.borrow_mut();
         *r = [0; MAX_TASKS];
@@ -116,6 +118,28 @@ pub fn mix(v: u64) {
         h ^= h >> 29;
         c.set(h);
     });
+}
+
+pub const OP_EXEC: u8 = 1;
+pub const OP_VALIDATE: u8 = 2;
+pub const OP_CLAIM: u8 = 3;
+
+/// (operation kind, txid, incarnation) the task last announced through an event hook
+pub fn current_op(task: usize) -> (u8, u32, u32) {
+    if task >= MAX_TASKS {
+        return (0, 0, 0);
+    }
+    CURRENT_OP.with(|c| c.borrow()[task])
+}
+
+pub fn set_current_op(kind: u8, txid: usize, incarnation: usize) {
+    if !in_sim() {
+        return;
+    }
+    let me = me();
+    if me < MAX_TASKS {
+        CURRENT_OP.with(|c| c.borrow_mut()[me] = (kind, txid as u32, incarnation as u32));
+    }
 }
 
 pub fn pending_site(task: usize) -> Site {
